@@ -3,6 +3,8 @@ package cluster
 import (
 	"errors"
 	"fmt"
+	"io"
+	"os"
 	"sort"
 	"time"
 
@@ -32,6 +34,7 @@ type ClientOp struct {
 	ackedBefore  uint64 // highest index acknowledged to anybody before invoke
 	cmdBefore    uint64 // highest committed command index known before invoke
 	termAtInvoke uint64
+	cfgAtInvoke  raft.Configuration
 	inst         *sim.Instance
 	orphaned     bool // the server crashed while the call was in flight: outcome unknown
 	flagged      bool
@@ -100,8 +103,13 @@ func NewRunner(p *Program, o RunOpts) *Runner {
 
 func (r *Runner) nodeOpts(i int) sim.NodeOpts {
 	p := r.P
+	var logw io.Writer
+	if os.Getenv("DEBUGSRV") == r.ids[i] {
+		logw = os.Stdout
+	}
 	return sim.NodeOpts{
-		Batching: p.Batching[i], ConfStore: p.ConfStore[i], Pipeline: p.Pipeline, HBFast: p.HBFast, NoPreVote: false, Notify: true,
+		LogOutput: logw,
+		Batching:  p.Batching[i], ConfStore: p.ConfStore[i], Pipeline: p.Pipeline, HBFast: p.HBFast, NoPreVote: false, Notify: true,
 		Conf: func(c *raft.Config) {
 			hb := time.Duration(p.HBms[i]) * time.Millisecond
 			c.HeartbeatTimeout, c.ElectionTimeout = hb, hb
@@ -408,6 +416,7 @@ func (r *Runner) doBarrier(in *sim.Instance) {
 func (r *Runner) doVerify(in *sim.Instance) {
 	op := r.newOp("verify", in, 0, "")
 	op.termAtInvoke = in.R.CurrentTerm()
+	op.cfgAtInvoke = r.cfgOf(in)
 	go func() {
 		f := in.R.VerifyLeader()
 		r.finish(op, f.Error(), 0, nil)
